@@ -512,3 +512,13 @@ def members_rewritten_with_their_energies(ctx):
                     f, late[0], statement='members rewritten without refreshing popEnergy')
         else:
             ctx.ok(construct, 'members rewritten only at generation 0 or together with their energies', f, stores[0])
+
+
+@rule('C01.i', min_instances=8)
+def penalty_and_reducer_changes_take_effect(ctx):
+    """a method that replaces the penalty or the reducer captured by the decorated objective invalidates it on every path (otherwise the reported energy is not cost + the *active* penalty)"""
+    from . import invalidate
+    for key, anchor in CONCRETE_SOLVERS.items():
+        cls = ctx.cls(anchor)
+        n, decoin = invalidate.check_class(ctx, key, cls, only_attrs={'_penalty', '_reducer'}, label_prefix=key + ':')
+        ctx.need({'_penalty', '_reducer'} <= decoin, '%s: penalty/reducer not captured by the decorator?' % cls.name)
